@@ -171,7 +171,18 @@ class RunCase(object):
         lines.append('# results of ${%length} and ${001001} are not used here')
         lines.append('note = "${%edition} is not a query here # nor a comment"')
         for i, e in enumerate(self.exprs):
-            lines.append('r%d = ${%s%s%s}' % (i, ' ' if i % 2 else '', e, '  ' if i % 3 == 0 else ''))
+            emb = '${%s%s%s}' % (' ' if i % 2 else '', e, '  ' if i % 3 == 0 else '')
+            # the names are bound for the whole script, nested scopes included
+            form = (i + (self.dup or 0)) % 4
+            if form == 0:
+                lines.append('r%d = %s' % (i, emb))
+            elif form == 1:
+                lines.append('r%d = (lambda: %s)()' % (i, emb))
+            elif form == 2:
+                lines += ['def f%d():' % i, '    return %s' % emb, 'r%d = f%d()' % (i, i)]
+            else:
+                lines.append('r%d = [%s for _ in range(1)][0]' % (i, emb))
+        lines += ['def _names():', '    return PBK_FILENAME, PBK_BUFR_MESSAGE', 'names_in_a_function = _names()']
         if self.dup is not None and self.exprs:
             lines.append('again = ${ %s }' % self.exprs[self.dup % len(self.exprs)])
         lines.append("tail = '${%length}'")
@@ -324,6 +335,9 @@ def check_run(rc):
         results[level] = v
         if v.get('PBK_BUFR_MESSAGE') is not msg or v.get('PBK_FILENAME') != msg.filename:
             out.fail('the message / file name variables are not bound', script=script)
+        nf = v.get('names_in_a_function')
+        if not (isinstance(nf, tuple) and nf[0] == msg.filename and nf[1] is msg):
+            out.fail('the message / file name variables are not visible inside a function of the script', script=script)
         if v.get('note') != '${%edition} is not a query here # nor a comment' or v.get('tail') != '${%length}':
             out.fail('an embedded query inside a string literal was replaced', script=script, note=v.get('note'), tail=v.get('tail'))
         for i, e in enumerate(rc.exprs):
